@@ -42,12 +42,12 @@ STALE = re.compile(r"fail [SMA]:(skip\[\d+\]|mode\[\d+\]\.transitions)$")
 
 
 def attribute(case, reply, why):
-    """F26: `%skip` / `%on` numbers are resolved on the untransformed grammar and not renumbered after
+    """F29: `%skip` / `%on` numbers are resolved on the untransformed grammar and not renumbered after
     left factoring. Counterfactual attribution: the failure is in a skip / transition list AND every
     description passes the whole oracle once the expectation is the stale number (`tid-stale`)."""
     if case.startswith("tid ") and STALE.match(why):
         if common.model_lines(["tid-stale " + case.split(" ", 1)[1]])[0] == "ok":
-            return "F26"
+            return "F29"
     return None
 
 
